@@ -6,6 +6,36 @@ ALL = ["C%02d" % i for i in range(1, 20)]
 
 # id -> (category, technique, level text, level note, design ref)
 CLAIMED = {
+ "C02": ("exploration",
+         "model-based (stateful) property testing: operation histories against a lock-step list model with a tolerant screen matcher; real-thread stress with a per-bar monotonicity oracle",
+         "Histories of add/insert/insert_from_back/insert_before/insert_after/remove/tick/inc/set_message/finish*/abandon/drop/mp.println/bar.println/mp.clear/mp.suspend/bar.suspend/set_alignment over up to 8 tagged bars run against the real MultiProgress on the emulated terminal and against an abstract list model (entries with the rendering cached at their last draw attempt, dropped-but-listed bars, retained blocks). At every flush the whole screen must be: printed lines in order, retained blocks (mandatory until a println/clear/suspend/remove intervenes), then each drawn member exactly once in model order. Threads: 2-8 OS threads update their own bar; every recorded frame must show states the bars really had, never older than before, and the last frame the final states.",
+         "Trusted: grid emulator, list model (insert semantics from the doc comments). Known findings F-C02a (bottom alignment shift rows) and F-C02b (remove then retain before repaint) are excluded by signature and reported as KNOWN-FINDING.",
+         "DESIGN.md 3 C02"),
+ "C03": ("exploration",
+         "property-based testing with a token oracle: every emitted log line carries a unique token and must be on the emulated terminal intact, once and in order after every operation and at every flush",
+         "MultiProgress histories (C02 alphabet plus clock waits) on targets with refresh rate None/1/2/20/60/255 under a frozen or slowly advancing virtual clock (so most ordinary draws are skipped), each starting with one of the scenarios the statement names; single-bar histories on rate-limited targets likewise. The oracle ignores what the bars look like and only demands every token line (all its wrapped rows, contiguous) exactly once and in emission order, above the live bars.",
+         "Trusted: grid emulator; virtual clock. The bottom-alignment finding of C02 also erases log lines and is excluded by the same signature.",
+         "DESIGN.md 3 C03"),
+ "C04": ("exploration",
+         "property-based testing under a virtual clock: exhaust every limiter, then one generated terminator; oracle = a frame is painted by the call and the screen equals the model's final state",
+         "Standalone: target with refresh rate None/1/20/255, 21-39 tick+inc pairs at the creation instant (20-frame and 10-update buckets exhausted, verified by a probe tick that paints nothing), a generated prior history, then one of finish/finish_with_message/finish_and_clear/abandon/abandon_with_message/finish_using_style x5/drop of the last handle x5/iterator exhaustion x5, optionally followed by reset() and a second completion with the stored finish behaviour: the call must paint, the screen must show the final state, getters must be final, dropping a finished bar must make no terminal call. MultiProgress: add/insert_before/insert_after/tick/inc/set_message/finish*/abandon/drop only, remaining handles dropped in a generated order, then the MultiProgress; the end screen must be exactly the final renderings of the visibly finished bars in visual order.",
+         "Trusted: grid emulator, virtual clock, list model.",
+         "DESIGN.md 3 C04"),
+ "C06": ("exploration",
+         "differential property testing: a hidden twin and a visible twin driven by the same generated calls under the same virtual clock; silence oracle on a spy terminal / a memfd",
+         "The C01 operation alphabet (plus texts with tabs and set_tab_width) is applied to a visible bar and to a twin hidden in one of four ways: hidden target, console::Term over a non-tty fd, member of a hidden MultiProgress, member of a visible MultiProgress removed after 0-5 operations (including finishing). The hidden twin must not make a single terminal call (no byte may reach the non-tty Term) and position/length/message/prefix/is_finished/elapsed/eta/per_sec must be equal to the visible twin after every operation.",
+         "Trusted: spy TermLike call counter, memfd length.",
+         "DESIGN.md 3 C06"),
+ "C18": ("fault_enumeration",
+         "fault-injecting property testing: generated histories x generated fault plans at the TermLike boundary, compared with a fault-free twin run; catch_unwind around every call",
+         "Single-bar (C01 alphabet incl. set_tab_width, suspend, println, finish, drop) and MultiProgress histories (C02 alphabet plus set_tab_width and set_draw_target on a member) are first run fault-free to count the terminal calls, then re-run with the k-th call failing (once / from then on / every second call; BrokenPipe / WouldBlock / Other). No call may unwind (a poisoned lock would make later calls unwind), mp.println/mp.clear must return Err when a terminal call failed during them, and position/length/message/prefix/is_finished of every handle must equal the fault-free twin after every operation.",
+         "Trusted: fault gate in the recording TermLike. k is generated uniformly over the calls of the fault-free run, not enumerated exhaustively.",
+         "DESIGN.md 3 C18"),
+ "C19": ("exploration",
+         "model-based property testing on tiny terminals: full-screen oracle (scroll-back + visible rows) against log ++ retained blocks ++ the longest fitting prefix of the bar lines",
+         "MultiProgress on terminals from 1x1 to 12x40 (thorough 40x200) with up to 8 single-line bars whose widths sit at k*W-2..k*W+2 (1-4 rows each); add/remove/tick/inc/set_message/finish/finish_and_clear/drop/println/clear make the frame cross the terminal height in both directions. At every flush the complete emulator contents must equal printed lines, retained blocks and exactly the leading bar lines whose wrapped rows fit; a bar row that scrolled out, survived a redraw or was painted although it did not fit shows up as a mismatch; move_cursor_up is bounded by rows-1 plus retained rows.",
+         "Trusted: grid emulator (own implementation because vt100 cannot wrap on a 1-row screen), list model. Single-line bars only.",
+         "DESIGN.md 3 C19"),
  "C01": ("exploration",
          "model-based property testing: generated operation histories executed against the real bar on an emulated terminal and against a reference screen model (printed lines ++ frame), compared after every flush and every operation",
          "One bar on the harness's terminal emulator of 1..12 rows x 1..40 (thorough 200) columns, random simple template (literals, {msg}, {prefix}, {pos}, {len}, 1-3 lines, zero-width SGR), histories of tick/inc/set_position/set_message/set_prefix/set_style/set_length/println/suspend/reset/finish*/abandon* with empty, zero-width, multi-line texts and widths around multiples of the terminal width. At every flush the emulated screen (scroll-back + visible rows) must equal the wrapped printed lines followed by the frame of the model state, and a probe character must land in column 0 of the row below.",
